@@ -38,6 +38,7 @@ type World struct {
 	monitors  map[string]*FuncContract
 	closeOnly map[string]bool // "pkgpath.Type.field"
 	protoErrs []string        // violations of the syntactic close-only discipline
+	calledProved map[string]bool
 }
 
 // Ty is the type of a spec expression: a Go type, or a spec-only SMT sort.
@@ -618,4 +619,57 @@ func (w *World) checkCloseOnly() {
 		}
 	}
 	sort.Strings(w.protoErrs)
+}
+
+// calledProved: contracts of functions under verification that are used at a call site of another function under
+// verification (directly or through inlined helpers and closures). Only for those does the frame (modifies clauses)
+// matter to anybody, so only those get frame obligations.
+func (w *World) calledProvedSet() map[string]bool {
+	if w.calledProved != nil {
+		return w.calledProved
+	}
+	w.calledProved = map[string]bool{}
+	proved := func(fc *FuncContract) bool { return fc != nil && !fc.Extern && !fc.AssumeOnly && !fc.Inline }
+	seen := map[*ssa.Function]bool{}
+	var visit func(fn *ssa.Function)
+	visit = func(fn *ssa.Function) {
+		if fn == nil || seen[fn] {
+			return
+		}
+		seen[fn] = true
+		for _, b := range fn.Blocks {
+			for _, ins := range b.Instrs {
+				ci, ok := ins.(ssa.CallInstruction)
+				if !ok {
+					continue
+				}
+				if _, isGo := ins.(*ssa.Go); isGo {
+					// goroutines are not executed in the caller: their frame concerns nobody
+					if mc, ok := ci.Common().Value.(*ssa.MakeClosure); ok {
+						seen[mc.Fn.(*ssa.Function)] = true
+					}
+					continue
+				}
+				callee := ci.Common().StaticCallee()
+				if callee == nil {
+					continue
+				}
+				k := funcKey(callee)
+				if fc := w.contracts[k]; proved(fc) {
+					w.calledProved[k] = true
+				} else if fc == nil || fc.Inline {
+					visit(callee)
+				}
+			}
+		}
+		for _, a := range fn.AnonFuncs {
+			visit(a)
+		}
+	}
+	for k, fc := range w.contracts {
+		if proved(fc) {
+			visit(w.lookupFunc(k))
+		}
+	}
+	return w.calledProved
 }
